@@ -102,6 +102,8 @@ def install(E):
         e.branch(st, ln > 0, nonempty, lambda s: e.raise_(s, 'ValueError', 'max() of empty list'), note='max')
     X['max_list'] = max_list
 
+    ParseFloatOk = z3.Function('py_float_ok', z3.StringSort(), z3.BoolSort())
+
     def b_float(e, n, pos, kws, st, k):
         x = pos[0]
         if x.ty.kind in ('int', 'float', 'bool'):
@@ -116,7 +118,6 @@ def install(E):
         raise Unsupported('float(%s)' % x.ty)
     X['float'] = b_float
 
-    ParseFloatOk = z3.Function('py_float_ok', z3.StringSort(), z3.BoolSort())
     E.ParseFloatOk = ParseFloatOk
 
     def float_of_str(e, n, pos, kws, st, k):
@@ -177,7 +178,17 @@ def install(E):
         # exceptions, types, anything else: some string
         return k(st, fresh_str('str'))
     X['str'] = b_str
-    X['repr'] = lambda e, n, pos, kws, st, k: k(st, fresh_str('repr'))
+    def b_repr(e, n, pos, kws, st, k):
+        x = pos[0]
+        if x.ty.kind == 'float':
+            # T-LIB: repr of a float is the shortest text that reads back as exactly that float
+            rf = z3.Function('py_repr_float', sort_of(FLOAT), z3.StringSort())
+            fv = z3.Function('py_float_val', z3.StringSort(), sort_of(FLOAT))
+            r = rf(x.t)
+            st.assume(ParseFloatOk(r), fv(r) == x.t)
+            return k(st, SV(STR, r))
+        return k(st, fresh_str('repr'))
+    X['repr'] = b_repr
 
     def str_mod(e, n, pos, kws, st, k):
         # '%...' % (x,) : a function of the format string and the argument value (T-FMT)
@@ -185,7 +196,13 @@ def install(E):
         if arg.ty.kind == 'tup' and len(arg.ty.args) == 1:
             x = (arg.items if arg.items is not None else unpack(arg.ty, arg.t).items)[0]
             if x.ty.kind in ('float', 'int', 'str'):
-                return k(st, SV(STR, e.fmt_fn(x.ty)(fmt.t, x.t)))
+                r = e.fmt_fn(x.ty)(fmt.t, x.t)
+                f0 = z3.simplify(fmt.t)
+                import re as _re
+                if x.ty.kind == 'float' and z3.is_string_value(f0) and _re.fullmatch(r'%[0-9]*\.?[0-9]*[fFeEgG]', f0.as_string()):
+                    # T-FMT: a single float conversion renders text that float() accepts
+                    st.assume(ParseFloatOk(r))
+                return k(st, SV(STR, r))
         return k(st, fresh_str('fmt'))
     X['str_mod'] = str_mod
 
